@@ -1,4 +1,5 @@
 import Shisui.FramingUtp
+import Shisui.FramingLen
 import Driver.Util
 /-! C15 driver: stream framing. -/
 namespace Drv.C15
@@ -44,6 +45,14 @@ def step (toks : List String) (impl : String) : Res :=
   | ["retainenc", what, _] =>
     -- the joined stream kept from one call still is that stream after the next call
     { model := "changed=0", monitor := if impl == "changed=0" then [] else ["join_result_stable"], tags := ["retainenc", what], nontrivial := false }
+  | ["hugeenc", lens] =>
+    -- items too large to spell out (all-zero values of the given lengths): the stream's size and every length prefix come from
+    -- the lengths alone (`Fr.encContents_length`), the values are compared by the harness
+    let ns := (lens.splitOn ",").filterMap String.toNat?
+    let prefixes := ",".intercalate (ns.map fun n => canon (enc n))
+    { model := s!"outlen={streamLen ns} prefixes={prefixes} bodies=1 rt=same",
+      monitor := if (words impl).getLast? == some "rt=same" then [] else ["roundtrip"],
+      tags := ["hugeenc", s!"n{ns.length}"] }
   | ["enc", items] =>
     let xs := parseItems items
     { model := canon (encContents xs), tags := ["enc", s!"n{min xs.length 65}"], nontrivial := xs.length > 1 }
